@@ -29,9 +29,9 @@ CHECKS = {
     note=TB + "; the x86 back end is trusted not to turn the remaining arithmetic into secret-dependent branches; the result clause is decided on the -O0 IR; a loop body that branches on data is not handled by it (and is a violation of the first clause)"),
  "C10": dict(
     engine="derive",
-    technique="inter-procedural pointer-derivation and write-summary analysis: no store or writing callee effect reaches any operand of the 39 query functions; per-loop path enumeration with linear facts classifying budget exits (sa/scan.py); sentinel-collision rule on position trackers (a tracker and the cursor it records start from the same value and 'found' is decided by comparing the tracker with that value); window rule evaluating every comparison between (libc searcher result - operand) and the declared length at offsets L-1, L, L+1",
+    technique="inter-procedural pointer-derivation and write-summary analysis: no store or writing callee effect reaches any operand of the 39 query functions; per-loop path enumeration with linear facts classifying budget exits (sa/scan.py); sentinel-collision rule on position trackers (a tracker and the cursor it records start from the same value and 'found' is decided by comparing the tracker with that value); window rule evaluating every comparison between (libc searcher result - operand) and the declared length at offsets L-1, L, L+1; signedness rule on byte differences stored through result parameters (zext required)",
     category="other",
-    text="Decides, for all operand contents and sizes, the clause 'query functions never modify their operands': every pointer derived from an operand parameter (through casts, arithmetic, phi, libc/library functions that return interior pointers) is followed into every callee; any store or writing effect is a violation. Also decided (scan completeness): in the 36 budgeted scan loops of these functions (a counter from a length argument decreasing by a constant, a cursor advancing by a constant) every exit whose guards bound the counter leaves the loop only after all `budget` elements were examined - a pre-decremented or `> 1` guard that leaves the last element untried is reported. The difference a comparison function stores through its result parameter is not truncated to the width of the compared elements. The answer of a length-less libc searcher applied to an operand is accepted only at offsets < the declared length (strchr_s). Which exit yields which answer (equality with strcmp/strstr/strspn/...) is value-level and is not decided.",
+    text="Decides, for all operand contents and sizes, the clause 'query functions never modify their operands': every pointer derived from an operand parameter (through casts, arithmetic, phi, libc/library functions that return interior pointers) is followed into every callee; any store or writing effect is a violation. Also decided (scan completeness): in the 36 budgeted scan loops of these functions (a counter from a length argument decreasing by a constant, a cursor advancing by a constant) every exit whose guards bound the counter leaves the loop only after all `budget` elements were examined - a pre-decremented or `> 1` guard that leaves the last element untried is reported. The difference a comparison function stores through its result parameter is not truncated to the width of the compared elements. The answer of a length-less libc searcher applied to an operand is accepted only at offsets < the declared length (strchr_s). Byte differences stored as the ordering are taken of zero-extended bytes (unsigned char comparison, C11 7.24.4). Which exit yields which answer (equality with strcmp/strstr/strspn/...) is value-level and is not decided.",
     design_ref="DESIGN.md §4 C10",
     note=TB + "; only the operands-unmodified clause is claimed; out-of-bounds reads of these functions belong to C02"),
  "C13": dict(
